@@ -3,6 +3,8 @@ package main
 import (
 	"context"
 	"fmt"
+	"os"
+	"path/filepath"
 	"sort"
 	"strings"
 	"time"
@@ -12,7 +14,6 @@ import (
 	"github.com/synnaxlabs/synnax/pkg/distribution/channel"
 	"github.com/synnaxlabs/synnax/pkg/distribution/framer/iterator"
 	"github.com/synnaxlabs/synnax/pkg/distribution/framer/writer"
-	"github.com/synnaxlabs/synnax/pkg/distribution/mock"
 	"github.com/synnaxlabs/synnax/pkg/distribution/node"
 	"github.com/synnaxlabs/x/gorp"
 	"github.com/synnaxlabs/x/telem"
@@ -85,9 +86,12 @@ type history struct {
 	nSteps   int
 	script   []step // non-nil: scripted history (layer "min")
 	scenario string
-	cluster  *mock.Cluster
+	cluster  *cluster
+	restarts bool // generate restart steps (thorough tier)
+	dead     bool // the history cannot continue (a restart failed)
 	nodes    []node.Key
 	steps    []step
+	cur      *step // the request being executed / swept (included in witnesses)
 
 	meta      map[channel.Key]channel.Channel // authoritative metadata at the last quiescent point
 	everSeen  map[channel.Key]string          // every key ever observed/returned -> kind
@@ -98,6 +102,7 @@ type history struct {
 	tainted   map[channel.Key]bool            // keys excluded from further checks (already reported / failed non-tx request)
 	stuck     map[channel.Key]bool            // keys whose metadata never converged across nodes
 	newKeys   map[channel.Key]bool            // keys that entered metadata in the current step
+	prevMeta  map[channel.Key]channel.Channel // metadata before the current step
 	idxStuck  map[string]bool                 // "node|name": name-index lookups on that node never agreed with its own listing
 	attempted int
 	maxLocal  uint32
@@ -133,17 +138,26 @@ func newRandomHistory(h *harness.H, c int, r *prng.R) *history {
 
 func (hs *history) open(ctx context.Context) {
 	v := hs.validate
-	hs.cluster = mock.ProvisionCluster(ctx, hs.nNodes, distribution.LayerConfig{
+	dir := ""
+	if hs.restarts {
+		// restarts need storage that survives a close: file-backed, under the build dir
+		dir = filepath.Join(harness.Root(), ".build", "c15-storage", fmt.Sprintf("%d-%s-%d", os.Getpid(), hs.layer, hs.c))
+	}
+	hs.cluster = provisionCluster(ctx, hs.nNodes, distribution.LayerConfig{
 		ValidateChannelNames:    &v,
 		TestingIntOverflowCheck: noLimit,
-	})
+	}, dir)
 	for i := 1; i <= hs.nNodes; i++ {
 		hs.nodes = append(hs.nodes, node.Key(i))
 	}
 }
 
 func (hs *history) witness() witness {
-	return witness{Scenario: hs.scenario, Nodes: hs.nNodes, ValidateNames: hs.validate, Steps: append([]step(nil), hs.steps...)}
+	steps := append([]step(nil), hs.steps...)
+	if hs.cur != nil {
+		steps = append(steps, *hs.cur)
+	}
+	return witness{Scenario: hs.scenario, Nodes: hs.nNodes, ValidateNames: hs.validate, Steps: steps}
 }
 
 // violate reports a violation once per (key, problem) and taints the key so that
@@ -176,8 +190,8 @@ func (hs *history) run(ctx context.Context) {
 			st = hs.genStep()
 		}
 		fmt.Fprintf(&shape, "%s;", shapeOf(st))
+		hs.cur = &st
 		deletedNow := hs.exec(ctx, &st)
-		hs.steps = append(hs.steps, st)
 		hs.h.Count("steps", 1)
 		if st.Err == "" {
 			hs.h.Count("ops_ok_"+st.Op, 1)
@@ -185,7 +199,14 @@ func (hs *history) run(ctx context.Context) {
 			hs.h.Count("ops_failed_"+st.Op, 1)
 		}
 		hs.h.Seen("op_shapes", fmt.Sprintf("%s tx=%v err=%v via-remote=%v", st.Op, st.Tx, st.Err != "", hs.touchesRemote(st)))
+		if hs.dead {
+			hs.steps = append(hs.steps, st)
+			hs.cur = nil
+			return
+		}
 		hs.sweep(ctx, st, deletedNow)
+		hs.steps = append(hs.steps, st)
+		hs.cur = nil
 	}
 	// Final re-check of every key ever successfully deleted.
 	all := make([]channel.Key, 0, len(hs.deleted))
@@ -202,6 +223,16 @@ func (hs *history) run(ctx context.Context) {
 		hs.h.Distinct(shape.String())
 	}
 	hs.h.Sample(hs.witness())
+}
+
+func (hs *history) last() step {
+	if hs.cur != nil {
+		return *hs.cur
+	}
+	if len(hs.steps) > 0 {
+		return hs.steps[len(hs.steps)-1]
+	}
+	return step{Op: "provision"}
 }
 
 func (hs *history) touchesRemote(st step) bool {
@@ -335,6 +366,17 @@ func (hs *history) exec(ctx context.Context, st *step) (deletedNow []channel.Key
 		}
 	}
 	switch st.Op {
+	case "restart":
+		// close node Via's distribution layer and open it again over the same storage
+		if rerr := hs.cluster.restart(ctx, node.Key(st.Via)); rerr != nil {
+			st.Err = rerr.Error()
+			hs.dead = true
+			hs.h.Inconclusive("node-restart-failed")
+			fmt.Printf("NOTE: C15 %s case %d: restarting node %d failed: %v\n", hs.layer, hs.c, st.Via, rerr)
+			return nil
+		}
+		hs.h.Count("node_restarts", 1)
+		return nil
 	case "create":
 		chs := make([]channel.Channel, len(st.Chans))
 		for i, rc := range st.Chans {
@@ -490,7 +532,16 @@ func (hs *history) checkCreated(st step, chs []channel.Channel) {
 		}
 	}
 	// The requested leaseholder must be the one embedded (calculated channels are free).
-	for _, rc := range st.Chans {
+	for ri, rc := range st.Chans {
+		ambiguous := false
+		for oi, o := range st.Chans {
+			if oi != ri && o.Name == rc.Name {
+				ambiguous = true // same name requested twice: which result belongs to which request is unknowable
+			}
+		}
+		if ambiguous {
+			continue
+		}
 		want := node.Key(rc.Lease)
 		switch rc.Kind {
 		case "free", "calc":
@@ -587,10 +638,7 @@ func (hs *history) quiesce(ctx context.Context) map[channel.Key]channel.Channel 
 					ks = append(ks, k)
 				}
 				sortKeys(ks)
-				last := step{}
-				if len(hs.steps) > 0 {
-					last = hs.steps[len(hs.steps)-1]
-				}
+				last := hs.last()
 				var detail strings.Builder
 				for _, k := range ks {
 					fmt.Fprintf(&detail, " key %d:", k)
@@ -679,10 +727,7 @@ func (hs *history) quiesceNameIndex(ctx context.Context, views map[node.Key]map[
 			}
 			hs.h.Inconclusive("name-index-never-agreed-with-listing")
 			hs.h.Count("stale_name_index_entries", len(bad))
-			last := step{}
-			if len(hs.steps) > 0 {
-				last = hs.steps[len(hs.steps)-1]
-			}
+			last := hs.last()
 			fmt.Printf("NOTE: C15 %s case %d: by-name lookups still disagree with the node's own listing %s after the last request (%s via node %d) for node|name %v\n",
 				hs.layer, hs.c, nameIndexWatchdog, last.Op, last.Via, bad)
 			return
@@ -723,15 +768,45 @@ func (hs *history) engineScan(ctx context.Context) map[channel.Key][]engineEntry
 
 // judged reports whether residuals first seen after this step are judged: everything
 // after a successful request, and after a failing request only if it was transactional.
-func judged(st step) bool { return st.Err == "" || st.Tx }
+func (hs *history) judged(st step) bool {
+	if st.Err == "" {
+		return true
+	}
+	if !st.Tx {
+		return false
+	}
+	// A failing transactional request that names a channel the monitor has already
+	// reported on (e.g. one that exists in metadata only) fails *because of* that
+	// residual; what it leaves behind is a follow-on effect, not a new observation.
+	for _, k := range st.Keys {
+		if hs.tainted[channel.Key(k)] {
+			return false
+		}
+	}
+	for _, rc := range st.Chans {
+		if rc.LocalIndex != 0 && hs.tainted[channel.NewKey(node.Key(rc.Lease), channel.LocalKey(rc.LocalIndex))] {
+			return false
+		}
+	}
+	for _, nm := range st.Names {
+		if st.Op == "delete-names" {
+			for k, ch := range hs.prevMeta {
+				if ch.Name == nm && hs.tainted[k] {
+					return false
+				}
+			}
+		}
+	}
+	return true
+}
 
 func (hs *history) flag(st step, key channel.Key, problem, sig, what string) {
 	if hs.tainted[key] {
 		return
 	}
-	if !judged(st) {
+	if !hs.judged(st) {
 		hs.tainted[key] = true
-		hs.h.Count("residuals_after_failed_notx_request", 1)
+		hs.h.Count("residuals_not_judged", 1)
 		return
 	}
 	hs.violate(key, problem, sig, what)
@@ -742,6 +817,7 @@ func (hs *history) sweep(ctx context.Context, st step, deletedNow []channel.Key)
 	m := hs.quiesce(ctx)
 	d := st.descr()
 	prev := hs.meta
+	hs.prevMeta = prev
 	hs.meta = m
 	hs.newKeys = map[channel.Key]bool{}
 	for k := range prev {
@@ -851,6 +927,11 @@ func (hs *history) sweep(ctx context.Context, st step, deletedNow []channel.Key)
 				how = l
 			}
 			sig := "c15:orphan-after-" + how + ":engine:" + kd
+			if kd == "virtual" && (how == "delete" || how == "failed-delete") {
+				// its metadata was removed by a (partially committed) delete: same residual as
+				// a fully successful delete of a virtual channel
+				sig = "c15:deleted-survives:engine:virtual"
+			}
 			if how == "overwrite-create" {
 				// Which leaseholder did the overwriting channel of the same name go to?
 				rel := "unknown-lease"
@@ -897,6 +978,21 @@ func (hs *history) sweep(ctx context.Context, st step, deletedNow []channel.Key)
 				continue
 			}
 			sig := "c15:duplicate-name-after-" + d
+			for _, nk := range hs.nodes {
+				if hs.idxStuck[fmt.Sprintf("%d|%s", nk, ch.Name)] {
+					// some node's by-name lookup of this very name had been observed not to
+					// match its own listing before the request that created the duplicate
+					sig += ":stale-name-index"
+					break
+				}
+			}
+			for _, rc := range st.Chans {
+				if rc.LocalKey != 0 && rc.Name == ch.Name && (channel.NewKey(node.KeyFree, channel.LocalKey(rc.LocalKey)) == o.Key() || channel.NewKey(node.KeyFree, channel.LocalKey(rc.LocalKey)) == ch.Key()) {
+					// the request named an existing free channel by key (an update); the
+					// service created a second channel with the name instead
+					sig = "c15:duplicate-name:update-through-create-made-a-copy"
+				}
+			}
 			switch {
 			case kindOf(o) == "free-index" && kindOf(ch) == "free-index" && hs.newKeys[o.Key()] && hs.newKeys[ch.Key()]:
 				sig = "c15:duplicate-name:calc-auto-index-created-twice"
@@ -920,6 +1016,23 @@ func (hs *history) checkDeleted(ctx context.Context, st step, keys []channel.Key
 		}
 		kind := hs.deleted[k]
 		hs.h.Count("deleted_checked", 1)
+		if st.Op == "delete-names" {
+			if ch, still := hs.meta[k]; still {
+				if hs.stuck[k] {
+					// the gateway's own view of this channel (and so of its name) never converged
+					delete(hs.deleted, k)
+					continue
+				}
+				stale := ""
+				if hs.idxStuck[fmt.Sprintf("%d|%s", st.Via, ch.Name)] {
+					stale = fmt.Sprintf(" (node %d's by-name lookup of %q was already observed not to find it)", st.Via, ch.Name)
+				}
+				delete(hs.deleted, k)
+				hs.violate(k, "delete-by-name-ignored", "c15:delete-by-name-ignored:"+kind,
+					fmt.Sprintf("DeleteManyByNames(%q) via node %d returned nil but channel key %d with exactly that name still exists%s", ch.Name, st.Via, k, stale))
+				continue
+			}
+		}
 		// metadata: the home node always, the others unless the key is stuck
 		var metaSym []string
 		for _, nk := range hs.nodes {
